@@ -249,5 +249,38 @@ def r11_5(ctx):
      ctx.bad(construct, f"case folding is applied in {cased} only: a lookup site that was missed compares the sdkconfig spelling with the folded table", d.loc()))
 
 
+def r11_6(ctx):
+    """R11.6 (a) the list of rename files reaches the rename-table parser as it was given - order and repetitions included:
+    the tables are last-mapping-wins, so dropping a repeated file changes which mapping is last; (b) a line with a
+    deprecated name, once resolved, continues exactly like a line with the new name: the resolution blocks contain no
+    early exit of the line loop; (c) the synthetic symbol of a deprecated-block entry gets its type from the value as
+    written (quotes included: `"y"` is a string)."""
+    from .common import not_rebound
+    repo = ctx.repo
+    not_rebound(ctx, f"{CORE}:Kconfig.load_rename_files", ["path_rename_files"],
+                "the rename tables are built from another list than the caller's (last mapping wins over the *given* order)")
+    pr = repo.func("esp_kconfiglib.deprecated:DeprecatedOptions._parse_replacements")
+    ctx.analysed(pr.qual)
+    prm = [a.arg for a in pr.node.args.args if a.arg != "self"]
+    loops = [n for n in ast.walk(pr.node) if isinstance(n, ast.For) and prm and ast.unparse(n.iter) in prm]
+    construct = "DeprecatedOptions._parse_replacements/iterates the rename files in the given order, repetitions included"
+    (ctx.ok(construct, pr.loc(loops[0])) if loops else ctx.bad(construct, f"no loop over the parameter(s) {prm} as given (filtered, sorted or de-duplicated)", pr.loc()))
+    f = repo.func(f"{CORE}:Kconfig._load_config")
+    ctx.analysed(f.qual)
+    blocks = [n for n in ast.walk(f.node) if isinstance(n, ast.If) and isinstance(n.test, ast.Name) and n.test.id == "new_name"]
+    if len(blocks) < 2:
+        blocks = [n for n in ast.walk(f.node) if isinstance(n, ast.If) and "get_new_option(" in ast.unparse(n.test)] + blocks
+    if len(blocks) < 2:
+        raise AnchorError(f"_load_config: {len(blocks)} deprecated-name resolution blocks found, 2 expected")
+    for i, b in enumerate(blocks):
+        construct = f"Kconfig._load_config/resolution block #{i + 1} has no early exit of the line"
+        ex = [x for st in b.body for x in ast.walk(st) if isinstance(x, (ast.Continue, ast.Break, ast.Return))]
+        (ctx.bad(construct, f"`{type(ex[0]).__name__.lower()}` inside the resolution of a deprecated name: such a line is dropped where the same line "
+                 "with the new name would be applied (the last line wins for new names, so it must for old ones)", f.loc(ex[0]))
+         if ex else ctx.ok(construct, f.loc(b)))
+    not_rebound(ctx, f"{CORE}:Kconfig._load_config.<locals>._create_new_deprecated_symbol", ["val", "name"],
+                "the type of the synthetic symbol is inferred from the value as written in the file")
+
+
 def rules():
-    return [("R11.1", r11_1, 7), ("R11.2", r11_2, 2), ("R11.3", r11_3, 4), ("R11.4", r11_4, 6), ("R11.5", r11_5, 3)]
+    return [("R11.6", r11_6, 6), ("R11.1", r11_1, 7), ("R11.2", r11_2, 2), ("R11.3", r11_3, 4), ("R11.4", r11_4, 6), ("R11.5", r11_5, 3)]
